@@ -1,8 +1,11 @@
 import SimbodyModel.Proto
 import SimbodyModel.C10
+import SimbodyModel.TreeDyn
+import SimbodyModel.TreeDynIO
 /-! Driver for C10: answers the harness's records with the definitions of `SimbodyModel/C10.lean` at `Float`.
 
 * `I presc …`   instance partition, pools, prescribeQ / prescribeU scatter, known udot slots
+* `I aba …`     the two ABA passes with prescribed nodes (`TreeDyn.forwardDynamics`) on exported tree data: udot and tau
 * `I elim …`    dense block elimination (free udot, tau), `findMotionForces`, `calcMotionPower`
 * `I sin …`     `Motion::Sinusoid` value / derivatives at the three levels from the trig pair
 * `I steady …`  `Motion::Steady` rates (+ `setOneRate`)
@@ -29,7 +32,8 @@ end Rd
 def fmtInts (tag : String) (xs : List Int) : String := tag ++ (xs.foldl (fun s x => s ++ " " ++ toString x) "")
 def fmtNats (tag : String) (xs : List Nat) : String := tag ++ (xs.foldl (fun s x => s ++ " " ++ toString x) "")
 
-/-- `nmob {qx ux nq nu lockLevel lockedQ(nq) lockedU(nu) hasMotion disabled level method mPos(nq) mVel(nu) mAcc(nu)} NQ q NU u` -/
+/-- `nmob {qx ux nq nu lockLevel lockedQ(nq) lockedU(nu) hasMotion disabled level method
+cbPos cbPosDot cbPosDotDot (nq each) cbVel cbVelDot cbAcc (nu each) NInv(nu·nq row major) NDotU(nq)} NQ q NU u` -/
 def readMobs : Nat → Rd → List (MobIn F) × Rd
   | 0, r => ([], r)
   | n + 1, r =>
@@ -37,10 +41,13 @@ def readMobs : Nat → Rd → List (MobIn F) × Rd
     let (nq, r) := r.nat; let (nu, r) := r.nat; let (ll, r) := r.int
     let (lq, r) := r.flts nq; let (lu, r) := r.flts nu
     let (has, r) := r.nat; let (dis, r) := r.nat; let (lvl, r) := r.int; let (mth, r) := r.int
-    let (mp, r) := r.flts nq; let (mv, r) := r.flts nu; let (ma, r) := r.flts nu
+    let (c0, r) := r.flts nq; let (c1, r) := r.flts nq; let (c2, r) := r.flts nq
+    let (c3, r) := r.flts nu; let (c4, r) := r.flts nu; let (c5, r) := r.flts nu
+    let (ni, r) := r.flts (nu * nq); let (ndu, r) := r.flts nq
+    let nInv : List (List F) := (List.range nu).map (fun i => (ni.drop (i * nq)).take nq)
     let md : Option MotionDesc := if has == 1 then some ⟨dis == 1, Level.ofInt lvl, Method.ofInt mth⟩ else none
     let (rest, r) := readMobs n r
-    (⟨qx, ux, nq, nu, Level.ofInt ll, lq, lu, md, mp, mv, ma⟩ :: rest, r)
+    (⟨qx, ux, nq, nu, Level.ofInt ll, lq, lu, md, c0, c1, c2, c3, c4, c5, nInv, ndu⟩ :: rest, r)
 
 def handlePresc (r : Rd) : List String :=
   let (nmob, r) := r.nat
@@ -49,12 +56,39 @@ def handlePresc (r : Rd) : List String :=
   let (nu, r) := r.nat; let (u, _) := r.flts nu
   let P := partition mobs
   let (q', u') := prescribe mobs q u
-  let udot := scatterKnownUDot (List.replicate nu (0.0 / 0.0 : F)) P.presUDot P.udotPool P.zeroUDot
+  let udot := knownUDot mobs (List.replicate nu (0.0 / 0.0 : F))
   [fmtFloats "O presc q" q', fmtFloats "O presc u" u',
    fmtInts "O presc methods" (P.methods.foldr (fun m acc => m.q.toInt :: m.u.toInt :: m.udot.toInt :: acc) []),
    fmtNats "O presc freeQ" P.freeQ, fmtNats "O presc freeU" P.freeU, fmtNats "O presc freeUDot" P.freeUDot,
    fmtNats "O presc knownUDot" P.presForce,
    fmtFloats "O presc udotKnown" (P.presForce.map (fun i => udot.getD i (0.0 / 0.0)))]
+
+
+/-- `0 nb nu {idx parent d u0 l(3) m p(3) G(6) H(6 d)}×nb presc(nb) a(6 nb) b(6 nb) F(6 (nb+1)) f(nu) udotP(nu) fscale`:
+the two passes of `calcTreeAccelerations` with prescribed nodes (`TreeDyn.abiForest`, `TreeDyn.forwardDynamics`);
+output: udot (nu), tau packed in body order (= `getMotionMultipliers`), fscale echoed -/
+def handleAba (toks : List String) : List String :=
+  let (h, c) := TreeDyn.parseHeader toks
+  let nu := h.nu; let nb := h.nb
+  let flags := (List.range nb).map (fun k => (c.toks.getD (c.pos + k) "0") == "1")
+  let c : TreeDyn.Cur := { c with pos := c.pos + nb }
+  let (a, c) := c.svs nb
+  let (b, c) := c.svs nb
+  let (fB, c) := c.svs (nb + 1)
+  let (f, c) := c.flts nu
+  let (udp, c) := c.flts nu
+  let (fscale, _) := c.flt
+  let bodies := (h.bodies.zip flags).map (fun bf => { bf.1 with presc := bf.2 })
+  let aA := a.toArray; let bA := b.toArray; let fA := fB.toArray
+  let bias : Array (TreeDyn.Bias F) := (Array.range (nb + 1)).map (fun i =>
+    if i == 0 then ⟨TreeDyn.SV.zero, TreeDyn.SV.zero, fA.getD 0 TreeDyn.SV.zero⟩
+    else ⟨aA.getD (i - 1) TreeDyn.SV.zero, bA.getD (i - 1) TreeDyn.SV.zero, fA.getD i TreeDyn.SV.zero⟩)
+  let abi := TreeDyn.abiForest (TreeDyn.forest bodies)
+  let fwd := TreeDyn.forwardDynamics abi bias f udp
+  let udot := (TreeDyn.udotOf nu fwd).toList
+  let known := (fwd.filter (fun x => x.body.presc)).toArray.qsort (fun x y => x.body.idx < y.body.idx)
+  let tau := known.toList.foldr (fun x acc => x.tau ++ acc) []
+  [fmtFloats "O aba" (udot ++ tau ++ [fscale])]
 
 def rowsOf (n : Nat) (xs : List F) : List (List F) := (List.range n).map (fun i => (xs.drop (i * n)).take n)
 
@@ -117,6 +151,7 @@ def main : IO Unit := do
         | "chk" => ["O chk 1"]
         | "presc" => handlePresc r
         | "elim" => handleElim r
+        | "aba" => handleAba (_seed :: _case :: args)
         | "sin" => handleSin r
         | "steady" => handleSteady r
         | "lockseq" => handleLockSeq r
